@@ -163,7 +163,15 @@ pub fn oracle(ctx: &mut Ctx) {
         for (n, d) in &attached {
             raw.add_png_chunk(*n, d.clone());
         }
-        let icc: Option<Vec<u8>> = if rng.chance(1, 3) { Some(rng.bytes(150)) } else { None };
+        // a third with an attached profile: random bytes, or (one in three of those) a large, highly compressible one
+        // that the size guess of the profile extraction cannot inflate - still a profile the caller attached
+        let icc: Option<Vec<u8>> = if rng.chance(1, 3) {
+            if rng.chance(1, 3) {
+                let mut p = vec![0u8; 4000 + rng.below(12000) as usize];
+                for k in 0..40 { let at = rng.below(p.len() as u64) as usize; p[at] = k as u8; }
+                Some(p)
+            } else { Some(rng.bytes(150)) }
+        } else { None };
         let srgb_attached = icc.is_none() && rng.chance(1, 4);
         let srgb_payload = vec![rng.below(4) as u8];
         if srgb_attached {
